@@ -81,6 +81,7 @@ func (p *Prog) verifyFunc(t target, findings []*Finding) (fr *FuncResult) {
 		if i == 0 && fn.Signature.Recv() != nil {
 			if _, ok := prm.Type().Underlying().(*types.Pointer); ok {
 				c.assume("true", c.B("(not (= %s 0))", v[0]))
+				c.nonNil[v[0]] = true
 			}
 		}
 	}
